@@ -24,6 +24,7 @@ import ast
 import math
 import re
 
+from pv.q import text as qtext
 from pv.model import AnalysisError, walk_no_nested, UNKNOWN, params
 from pv.handlers import HandlerTable
 from pv.identify import fold_regex, Unmodelled
@@ -196,7 +197,7 @@ def rule_a(model, rep, pairs):
     rep.check(has_if(rf, "rounds is None", ["rounds = ''"]), R, s, "None -> ''", "an elided rounds value renders as the empty field")
     rep.check(has_if(pf, "rounds.startswith(_UZERO) and rounds != _UZERO", ["raise exc.ZeroPaddedRoundsError(handler)"]), R, s, "zero padding refused",
               "the parser refuses zero-padded rounds, which the renderer never produces")
-    t = ast.unparse(pf)
+    t = qtext(pf)
     rep.check("elif default_rounds is None:\n        raise exc.MalformedHashError(handler, 'empty rounds field')\n    else:\n        rounds = default_rounds" in t, R, s, "empty rounds -> default_rounds or error",
               "an empty rounds field means the declared default, and is an error where none is declared")
     pi = model.func(UH, "parse_int")
@@ -345,7 +346,7 @@ def _b_specific(model, rep, R):
         fn = model.func(u, q)
         rep.check(has_if(fn, "rounds == 400", ["rounds = None"]) and has_stmt(fn, "rounds = self.rounds"), R, site(u, q), "rounds == 400 -> None", "dlitz: 400 rounds render as the empty field")
     pf = model.func(u, "dlitz_pbkdf2_sha1.from_string")
-    rep.check("default_rounds=400" in ast.unparse(pf), R, site(u, "dlitz_pbkdf2_sha1.from_string"), "default_rounds=400", "dlitz: the empty field parses as 400")
+    rep.check("default_rounds=400" in qtext(pf), R, site(u, "dlitz_pbkdf2_sha1.from_string"), "default_rounds=400", "dlitz: the empty field parses as 400")
     # sun-md5
     u = H + "sun_md5_crypt"
     pf = model.func(u, "sun_md5_crypt.from_string")
@@ -367,7 +368,7 @@ def _b_specific(model, rep, R):
     # argon2: version 16 has no field
     u = H + "argon2"
     pf = model.func(u, "_Argon2Common.from_string")
-    rep.check("version=int(version) if version else 16" in ast.unparse(pf), R, site(u, "_Argon2Common.from_string"), "absent version -> 16", "argon2: a string without `v=` is version 0x10")
+    rep.check("version=int(version) if version else 16" in qtext(pf), R, site(u, "_Argon2Common.from_string"), "absent version -> 16", "argon2: a string without `v=` is version 0x10")
     rf = model.func(u, "_Argon2Common.to_string")
     rep.check(bool(find_if(rf, "version == 16", ["vstr = ''"])), R, site(u, "_Argon2Common.to_string"), "version 16 -> no field", "argon2: version 0x10 renders without `v=`")
     # libpass sha-crypt
@@ -377,7 +378,7 @@ def _b_specific(model, rep, R):
     rep.check(bool(f) and [ast.unparse(x) for x in f[0].body] == ["return f'{self._prefix}{self.salt}${self.hash}'"], R, site(u, "SHACryptInfo.as_str"), "rounds is None -> no field",
               "libpass: the field is omitted exactly for records parsed from a string without it")
     pf = model.func(u, "inspect_sha_crypt")
-    rep.check("rounds=int(rounds) if rounds is not None else None" in ast.unparse(pf), R, site(u, "inspect_sha_crypt"), "absent -> None", "libpass: absent rounds are reported as None (not 5000)")
+    rep.check("rounds=int(rounds) if rounds is not None else None" in qtext(pf), R, site(u, "inspect_sha_crypt"), "absent -> None", "libpass: absent rounds are reported as None (not 5000)")
     # PHC optional version
     u = "libpass.inspect.phc._phc"
     fn = model.func(u, "PHC.as_str")
@@ -581,11 +582,11 @@ def rule_d(model, rep, pairs, lib_pairs):
                           "libpass records carry, under each name, the text of the group of that name",
                           witness=f"{fnq}(h).{k.arg} is not what the string says (e.g. an argon2i record reported as argon2id); as_str() renders another hash")
     fn = model.func("libpass.inspect.phc._phc", "inspect_phc")
-    t = ast.unparse(fn)
+    t = qtext(fn)
     rep.check("name: param.type(params[param.param.name]) for name, param in definition_info.parameters.items()" in t, RK, site("libpass.inspect.phc._phc", "inspect_phc") + " **params",
               "parsed_params[name] = type(params[declared short name])", "PHC parameters are looked up by the short name their definition declares")
     fn = model.func("libpass.inspect.phc._phc", "PHC.as_str")
-    rep.check("f'{value.param.name}={getattr(self, key)}' for key, value in _parse_phc_def(self.__class__).parameters.items()" in ast.unparse(fn), RK, site("libpass.inspect.phc._phc", "PHC.as_str") + " params",
+    rep.check("f'{value.param.name}={getattr(self, key)}' for key, value in _parse_phc_def(self.__class__).parameters.items()" in qtext(fn), RK, site("libpass.inspect.phc._phc", "PHC.as_str") + " params",
               "short name = attribute value, in declaration order", "PHC parameters are rendered under the same short names, in declaration order")
     rep.check(has_stmt(fn, "return '$'.join(parts)") and has_stmt(fn, "parts.extend((params, self.salt, self.hash))") and has_stmt(fn, "parts: list[str] = [f'${self.id}']"), RK, site("libpass.inspect.phc._phc", "PHC.as_str"),
               "$id[$v=..]$params$salt$hash", "PHC layout: id, optional version, params, salt, hash joined by '$' (the order PHC_REGEX expects)")
@@ -628,7 +629,7 @@ def _none_guarded(unit, fn, node, attr):
     while cur is not fn and cur is not None:
         par = unit.parent(cur)
         if isinstance(par, ast.If):
-            t = ast.unparse(par.test)
+            t = qtext(par.test)
             if t == f"self.{attr} is not None" and cur in par.body:
                 return True
             if t == f"self.{attr} is None" and cur in par.orelse:
@@ -671,7 +672,7 @@ def rule_f(model, rep, pairs, lib_pairs):
             paths = p.paths()
         except T.Unsupported:
             continue
-        ptxt = ast.unparse(p.parser) + "".join(ast.unparse(x) for x in p.extra_parsers)
+        ptxt = qtext(p.parser) + "".join(ast.unparse(x) for x in p.extra_parsers)
         for toks, trail in paths:
             for t in toks:
                 if t[0] != "fld" or " %" not in t[1]:
@@ -697,9 +698,9 @@ def rule_f(model, rep, pairs, lib_pairs):
     rep.check(has_stmt(model.func(u, "cisco_type7.from_string"), "salt = int(hash[:2])") and returns(model.func(u, "cisco_type7.to_string")) == ["'%02d%s' % (self.salt, self.checksum)"], R, site(u, "cisco_type7"),
               "int(hash[:2]) <-> '%02d'", "cisco type 7: salt is two decimal digits both ways")
     # hex case: oracle11 / mssql / grub / cisco upper
-    rep.check(returns(model.func(H + "oracle", "oracle11.to_string")) == ["f'S:{chk.upper()}{self.salt.upper()}'"] and "checksum=chk.upper()" in ast.unparse(model.func(H + "oracle", "oracle11.from_string")), R, site(H + "oracle", "oracle11"),
+    rep.check(returns(model.func(H + "oracle", "oracle11.to_string")) == ["f'S:{chk.upper()}{self.salt.upper()}'"] and "checksum=chk.upper()" in qtext(model.func(H + "oracle", "oracle11.from_string")), R, site(H + "oracle", "oracle11"),
               "upper-case on both sides", "oracle11: canonical form is upper-case hex; parser normalises the digest to it")
-    rep.check("checksum=hash[2:].upper()" in ast.unparse(model.func(u, "cisco_type7.from_string")), R, site(u, "cisco_type7.from_string"), "digest upper-cased", "cisco type 7: digest normalised to upper-case hex")
+    rep.check("checksum=hash[2:].upper()" in qtext(model.func(u, "cisco_type7.from_string")), R, site(u, "cisco_type7.from_string"), "digest upper-cased", "cisco type 7: digest normalised to upper-case hex")
 
 
 # ----------------------------------------------------------------------------- g. regex repeat counts
@@ -782,7 +783,7 @@ def rule_g(model, rep, table):
         want = f"_parse_mssql(hash, {6 + 2 * (ss + cs)}, {2 + ss + cs}, cls)"
         rep.check(has_stmt(fn, f"data = {want}"), R, site(u, f"{name}.from_string"), f"expected {want}", f"{name}: text length = 6 + 2*(salt+digest), binary length = 2 + salt + digest, from the declared sizes")
     fn = model.func(u, "_parse_mssql")
-    rep.check("len(hash) == csize and hash.startswith(BIDENT)" in ast.unparse(fn) and "len(hash) != hsize" not in "" and has_stmt(fn, "return unhexlify(hash[6:].encode('utf-8'))"), R, site(u, "_parse_mssql"), "6-character ident then hex",
+    rep.check("len(hash) == csize and hash.startswith(BIDENT)" in qtext(fn) and "len(hash) != hsize" not in "" and has_stmt(fn, "return unhexlify(hash[6:].encode('utf-8'))"), R, site(u, "_parse_mssql"), "6-character ident then hex",
               "mssql: '0x0100' (6 characters) precedes the hex payload")
     rep.minimum(R, 25)
 
@@ -862,7 +863,7 @@ def rule_h(model, rep, table, pairs):
     rep.check(has_if(fn, f"len(params) < {pos}"), R, site(u, "scrypt._parse_7_string"), f"len(params) < {pos}", "$7$: the length guard equals the end of the fixed fields")
     rf = model.func(u, "scrypt.to_string")
     want = "[b'$7$', h64.encode_int6(self.rounds), h64.encode_int30(self.block_size), h64.encode_int30(self.parallelism), self.salt, b'$', h64.encode_bytes(self.checksum)]"
-    rep.check(want in ast.unparse(rf), R, site(u, "scrypt.to_string"), "int6, int30, int30, salt, '$', digest", "$7$: renderer writes the same widths in the same order")
+    rep.check(want in qtext(rf), R, site(u, "scrypt.to_string"), "int6, int30, int30, salt, '$', digest", "$7$: renderer writes the same widths in the same order")
     kw2 = {}
     f2 = model.func(u, "scrypt._parse_scrypt_string")
     for call in _cls_call(f2):
